@@ -22,7 +22,7 @@ TOGGLES = [
     "alias_scalars", "component_parameters", "component_bodies", "component_responses", "path_item_parameters",
     "same_name_two_locations", "multi_body", "multipart", "form", "octet", "text_responses", "plus_json",
     "no_content", "security", "tags", "defaults", "descriptions", "query_arrays", "header_params",
-    "cookie_params", "shared_paths", "inline_response_objects", "shuffle_decl", "media_type_params", "item_level_name_clash", "multi_media_responses", "wrapped_refs", "rich_form_fields", "reserved_param_names", "python_name_clash", "noise_responses", "trailing_slash_paths", "prefix_names", "inline_in_aliases", "inline_allof", "shared_body_models", "decorations", "shared_components", "no_operation_id", "long_paths",
+    "cookie_params", "shared_paths", "inline_response_objects", "shuffle_decl", "media_type_params", "item_level_name_clash", "multi_media_responses", "wrapped_refs", "rich_form_fields", "reserved_param_names", "python_name_clash", "noise_responses", "trailing_slash_paths", "prefix_names", "inline_in_aliases", "inline_allof", "shared_body_models", "decorations", "shared_components", "no_operation_id", "long_paths", "coinciding_enums", "http_header_names",
 ]
 
 PROP_VOCAB = [
@@ -42,6 +42,29 @@ SCALARS = ["string", "integer", "number", "boolean", "date", "date-time", "uuid"
 
 def norm_key(name: str) -> str:
     return "".join(c for c in name.lower() if c.isalnum())
+
+
+def _has_inline_object(schema: Any, top: bool = True) -> bool:
+    """Does a schema definition contain an inline object (a class-generating schema that is not a $ref) below its top level?"""
+    if isinstance(schema, dict):
+        if not top and "$ref" not in schema and (schema.get("type") == "object" or "properties" in schema):
+            return True
+        return any(_has_inline_object(v, False) for k, v in schema.items() if k != "$ref")
+    if isinstance(schema, list):
+        return any(_has_inline_object(v, False) for v in schema)
+    return False
+
+
+def _all_property_names(schema: Any) -> set[str]:
+    out: set[str] = set()
+    if isinstance(schema, dict):
+        out |= set((schema.get("properties") or {}).keys()) if isinstance(schema.get("properties"), dict) else set()
+        for v in schema.values():
+            out |= _all_property_names(v)
+    elif isinstance(schema, list):
+        for v in schema:
+            out |= _all_property_names(v)
+    return out
 
 
 def scalar_schema(kind: str) -> dict:
@@ -245,7 +268,7 @@ class DocGen:
         """Parents for an inline composition: plain object models whose definition already exists (no cycles, and
         their property names are known so that the extra properties cannot conflict)."""
         return [n for n in self.refs_of_kind(("model",)) if n in self.schemas and "properties" in self.schemas[n]
-                and n != getattr(self, "_current_schema", None)]
+                and n != getattr(self, "_current_schema", None) and not _has_inline_object(self.schemas[n])]
 
     def prop_schema(self, depth: int, allow_array: bool = True) -> dict:
         """Schema for a model property / array item / response / json body."""
@@ -282,8 +305,14 @@ class DocGen:
             extra = {n_: {"type": r.choice(["string", "integer", "boolean"])} for n_ in self.pick_names(PROP_VOCAB, 2, taken)}
             return {"allOf": [self.ref(parent), {"type": "object", "properties": extra}]}
         if kind == "wrapref":
-            # the usual way to attach a description to a reference: a one-element allOf/oneOf/anyOf wrapper
-            tgt = self.ref(r.choice([n for n, k in self.schema_kind.items() if k != "bodymodel"] or list(self.schema_kind)))
+            # the usual way to attach a description to a reference: a one-element allOf/oneOf/anyOf wrapper.
+            # (Targets are already-defined schemas WITHOUT inline objects: the pinned generator re-processes the model
+            # behind a wrapped reference and then reports its inline classes as 'duplicate models' - observed, and
+            # outside the claimed properties; documents must stay free of diagnostics.)
+            safe = [n for n, k in self.schema_kind.items() if k != "bodymodel" and n in self.schemas and not _has_inline_object(self.schemas[n])]
+            if not safe:
+                return self.scalar()
+            tgt = self.ref(r.choice(safe))
             w: dict = {r.choice(["allOf", "allOf", "oneOf", "anyOf"]): [tgt]}
             if r.random() < 0.5:
                 w["description"] = "wrapped reference"
@@ -398,7 +427,7 @@ class DocGen:
                 if len(tgt) >= 2:
                     s = {r.choice(["oneOf", "anyOf"]): [self.ref(x) for x in r.sample(tgt, 2)]}
                 elif tgt and self.on("inline_in_aliases"):
-                    s = {"oneOf": [self.ref(tgt[0])]}
+                    s = {"oneOf": [self.ref(tgt[0]), {"type": "string"}]}  # (never a one-element alias: see the wrapped-reference note)
                 else:
                     s = {"oneOf": [{"type": "string"}, {"type": "integer"}]}
                 if self.on("inline_in_aliases") and tgt and r.random() < 0.5:
@@ -407,10 +436,30 @@ class DocGen:
                     key = next(iter(s))
                     inline = {"type": "object", "properties": {"inl_" + self.token(): {"type": "string"}}, "required": []}
                     inline["required"] = list(inline["properties"])
-                    s[key] = [inline] + [m for m in s[key] if "$ref" in m]
+                    s[key] = [inline] + [m for m in s[key] if "$ref" in m] + [m for m in s[key] if "$ref" not in m and m.get("type") == "string"]
             else:  # scalar alias
                 s = scalar_schema(r.choice(["string", "integer", "date", "date-time", "uuid", "number"]))
             self.schemas[nm] = s
+        if self.on("coinciding_enums"):
+            # a component enum whose name and values COINCIDE with the class an inline enum property generates
+            # (Order.status next to OrderStatus): the generator shares one class between them
+            for nm in list(self.schemas):
+                sc = self.schemas[nm]
+                for pn, ps in list((sc.get("properties") or {}).items()):
+                    if isinstance(ps, dict) and "enum" in ps and None not in ps["enum"] and pn.isalpha() and pn.islower() and r.random() < 0.5:
+                        cname = nm + pn.capitalize()
+                        if cname not in self.schemas and "Q" not in nm[1:]:
+                            self.schemas[cname] = {k2: v2 for k2, v2 in ps.items() if k2 in ("type", "enum")}
+                            self.schema_kind[cname] = "enum"
+                            users = [x for x in self.schemas if x not in (nm, cname) and self.schema_kind.get(x) == "model" and "properties" in self.schemas[x]]
+                            if users:
+                                u = r.choice(users)
+                                # (a name no schema of the document uses: u may be an allOf parent or child of others)
+                                everywhere = {norm_key(k2) for sc2 in self.schemas.values() for k2 in _all_property_names(sc2)}
+                                free = self.pick_names(PROP_VOCAB, 1, everywhere)
+                                if free:
+                                    self.schemas[u]["properties"][free[0]] = self.ref(cname)
+                        break
         if self.on("shuffle_decl"):
             order = list(self.schemas)
             mode = r.choice(["shuffle", "reverse", "shuffle"])
@@ -623,14 +672,24 @@ class DocGen:
         if self.on("no_content"):
             opts.append(("none", 1.5))
         k = r.choices([o for o, _ in opts], [w for _, w in opts])[0]
+        ov = getattr(self, "ct_overrides", {}) or {}
+        custom = {}
+        for c_, tgt in ov.items():
+            custom.setdefault(tgt, []).append(c_)
         if k == "none":
             return None
         if k == "text":
+            if custom.get("text/plain") and r.random() < 0.5:
+                return {r.choice(custom["text/plain"]): {"schema": {"type": "string"}}}
             return {r.choice(["text/plain", "text/html", "text/csv"]): {"schema": {"type": "string"}}}
         if k == "octet":
+            if custom.get("application/octet-stream") and r.random() < 0.5:
+                return {r.choice(custom["application/octet-stream"]): {"schema": {"type": "string", "format": "binary"}}}
             return {"application/octet-stream": {"schema": {"type": "string", "format": "binary"}}}
         mt = "application/json" if k == "json" else r.choice(["application/vnd.sim+json", "application/problem+json"])
-        if self.on("media_type_params") and r.random() < 0.25:
+        if k == "json" and custom.get("application/json") and r.random() < 0.5:
+            mt = r.choice(custom["application/json"])  # a custom media type that the configuration maps to JSON
+        if self.on("media_type_params") and r.random() < 0.25 and mt not in ov:
             mt += r.choice(["; charset=utf-8", "; version=2"])
         models = self.refs_of_kind(("model", "allof"))
         c = r.random()
@@ -729,6 +788,9 @@ class DocGen:
                 params.extend(self.make_param(x, "query") for x in qn)
                 if self.on("header_params"):
                     hn = self.pick_names(HEADER_VOCAB, r.choice([0, 1, 1, 2]), taken)
+                    if self.on("http_header_names") and r.random() < 0.2:
+                        hn.append("Accept")  # a header httpx also sets by itself: the argument must win
+                        self._wants_ct_header = r.random() < 0.5  # "Content-Type" as a parameter, only if the operation gets no body
                     taken |= {norm_key(x) for x in hn}
                     params.extend(self.make_param(x, "header") for x in hn)
                 if self.on("cookie_params"):
@@ -771,6 +833,10 @@ class DocGen:
                             comp_bodies[cname] = body
                             body = {"$ref": f"#/components/requestBodies/{cname}"}
                         op["requestBody"] = body
+                if getattr(self, "_wants_ct_header", False):
+                    self._wants_ct_header = False
+                    if "requestBody" not in op and not any(isinstance(q, dict) and q.get("name", "").lower() == "content-type" for q in op.get("parameters", [])):
+                        op.setdefault("parameters", []).append({"name": "Content-Type", "in": "header", "required": True, "schema": {"type": "string", "enum": ["application/x-sim-none", "text/x-sim"]}})
                 nresp = r.choice([1, 1, 2, 2, 3, 4])
                 resps: dict[str, dict] = {}
                 for st in sorted(r.sample(STATUSES, nresp)):
